@@ -252,7 +252,10 @@ def explore(run, bound=None, merge=True, on_exec=None, max_exec=None, root_prefi
         if pruned:
             stats["pruned"] += 1
         elif on_exec is not None:
-            on_exec(ch, result)
+            if on_exec(ch, result) == "stop":  # the caller has seen enough (e.g. repeated violations)
+                stats["capped"] = True
+                stats["stopped_by_caller"] = True
+                break
         if max_exec and stats["executions"] >= max_exec:
             stats["capped"] = True
             break
